@@ -305,7 +305,7 @@ pub fn run(ctx: &Ctx, st: &mut Stats) {
         }
     });
     // strided on Timestamp / OracleDate
-    let s2 = ctx.tier.pick(80_021, 97, 7);
+    let s2 = ctx.tier.pick(80_021, 97, 11);
     ctx.par(st, "(a) Timestamp,OracleDate: strided dates x date-token spellings", true, 0, N_DAYS as i64 / s2, |st, i, _| {
         let (y, m, d) = cal().of(MIN_DAY + (i * s2) as i32);
         let (h, mi, s) = ((i % 24) as u32, (i % 60) as u32, (i * 7 % 60) as u32);
